@@ -7,7 +7,10 @@ reg("C13", "simulations reproducible from their seed, conditioning honoured",
          "simulateSPDE 5% (global seed set immediately before the call), gibbs_sampler 15% (1-2 variables, bounds: free / "
          "one-sided / two-sided / equality / tight / tight far in the tail / mutually consistent, unique or moving, "
          "multi-mono), law_gaussian_between_bounds 7%, simpgs 12% and simbipgs 6% (random lithotype rules of 2-5 facies on "
-         "one or two GRFs, conditional data on grid nodes), generator-level seed semantics 2%. Seeds: 1, small, library "
+         "one or two GRFs, conditional data on grid nodes), generator-level seed semantics 2%; in addition every 200th case "
+         "(index = 7 mod 200) is one of four fixed, seed-independent scenarios (gibbs upper-only bound next to a conflicting "
+         "lower-only bound; gibbs with a moving neighbourhood on a 7x7 lattice with a gaussian covariance; gibbs multi-mono "
+         "with a bivariate model; seed semantics) so that these input classes are visited by every run. Seeds: 1, small, library "
          "defaults, large, 20000158/20000160 (around the modulus of the congruential generator), > 2^31/105 (the product "
          "wraps), 2^31-1, and <= 0 ('do not reseed': the documented global seed is then set before the call). Each "
          "configuration is executed 5 times on freshly built inputs: reference, back-to-back, after unrelated use of the "
@@ -17,7 +20,8 @@ reg("C13", "simulations reproducible from their seed, conditioning honoured",
          "honoured at coinciding targets (1e-5 relative), |S - K| <= 50 sK + 1e-4 scale against a long-double reference "
          "(co)kriging (targets 2e-4 away from a datum make this sharp; unique neighbourhood, nbtuba >= 10, only models whose "
          "structures are simulated by smooth band processes: gaussian, cubic, sincard, besselj), every Gibbs / "
-         "truncated-Gaussian value inside [L,U] (1e-10; equalities exact), plurigaussian facies at data nodes = observed "
+         "truncated-Gaussian value inside [L,U] (1e-10; equalities exact; Gibbs cases whose data covariance has a "
+         "condition number > 1e8 are skipped and counted), finite and |y| <= 1000 Gibbs outputs, plurigaussian facies at data nodes = observed "
          "facies, plurigaussian Gaussians at data nodes inside the thresholds of the observed facies (own threshold "
          "computation, 1e-3). distinct = distinct discrete signatures (family, dimension, variables, target kind, "
          "conditioning, neighbourhood, structure, nbsimu, nbtuba, seed class, ...) with at least one oracle evaluation",
